@@ -232,9 +232,12 @@ extern "C" {
                         auto result = ref.runtime->execute(sqf::runtime::runtime::action::start);
                         switch (result)
                         {
-                            case sqf::runtime::runtime::result::ok:
                             case sqf::runtime::runtime::result::empty:
                             return result_ok;
+
+                            // 'ok' means the run was ended early (time limit, exit request),
+                            // i.e. the code was not executed to completion.
+                            case sqf::runtime::runtime::result::ok:
 
                             case sqf::runtime::runtime::result::invalid:
                             case sqf::runtime::runtime::result::action_error:
@@ -260,9 +263,12 @@ extern "C" {
                         auto result = ref.runtime->execute(sqf::runtime::runtime::action::start);
                         switch (result)
                         {
-                            case sqf::runtime::runtime::result::ok:
                             case sqf::runtime::runtime::result::empty:
                             return result_ok;
+
+                            // 'ok' means the run was ended early (time limit, exit request),
+                            // i.e. the code was not executed to completion.
+                            case sqf::runtime::runtime::result::ok:
 
                             case sqf::runtime::runtime::result::invalid:
                             case sqf::runtime::runtime::result::action_error:
@@ -290,9 +296,12 @@ extern "C" {
                         auto result = ref.runtime->execute(sqf::runtime::runtime::action::start);
                         switch (result)
                         {
-                            case sqf::runtime::runtime::result::ok:
                             case sqf::runtime::runtime::result::empty:
                             return result_ok;
+
+                            // 'ok' means the run was ended early (time limit, exit request),
+                            // i.e. the code was not executed to completion.
+                            case sqf::runtime::runtime::result::ok:
 
                             case sqf::runtime::runtime::result::invalid:
                             case sqf::runtime::runtime::result::action_error:
